@@ -313,6 +313,127 @@ fn c05_scenario_c(btree: bool, split_pipeline: bool, big: bool, two_cols: bool) 
 	}
 }
 
+/// C11 (threads): a reader holds the tree reader lock of K1, reads the tree twice and, in between, inserts K2
+/// reusing a node of K1; a pruner dereferences K1 together with a btree write; a later transaction writes the
+/// same btree key; a pipeline thread drives the stages. While locked the tree must not change; at the end K2 is
+/// intact and the btree key holds the value of the transaction that committed last.
+fn c11_scenario(split_pipeline: bool) -> impl Fn() + Sync + Send + 'static {
+	use parity_db::{NewNode, NodeRef, Operation};
+	move || {
+		ITER.fetch_add(1, Ordering::SeqCst);
+		let dir = fresh_dir();
+		parity_db::verif::set_external_workers(true);
+		let tree_col = ColumnOptions { multitree: true, allow_direct_node_access: true, ..Default::default() };
+		let btree_col = ColumnOptions { btree_index: true, ..Default::default() };
+		let opts = options(&dir, vec![tree_col, btree_col], false);
+		let db = Arc::new(Db::open_or_create(&opts).expect("open"));
+		let (k1, k2, b) = (key(1), key(2), key(9));
+		let shared = NewNode { data: val(30, 7), children: vec![NodeRef::New(NewNode { data: val(4, 8), children: vec![] })] };
+		db.commit_changes(vec![(0u8, Operation::InsertTree(k1.clone(), NewNode { data: val(9, 9), children: vec![NodeRef::New(shared)] }))]).unwrap();
+		db.process_commits().unwrap();
+		db.flush_logs().unwrap();
+		db.enact_logs().unwrap();
+		db.clean_logs().unwrap();
+		fn walk(g: &(dyn parity_db::TreeReader + Send + Sync)) -> Option<Vec<(Vec<u8>, usize)>> {
+			let (root, children) = g.get_root().unwrap()?;
+			let mut out = vec![(root, children.len())];
+			let mut stack = children;
+			while let Some(a) = stack.pop() {
+				let (d, ch) = g.get_node(a).unwrap()?;
+				out.push((d, ch.len()));
+				stack.extend(ch);
+			}
+			Some(out)
+		}
+		// commit order of the two btree writers (the commits themselves are serialised by this mutex; their
+		// interleaving with the pipeline and the reader is free)
+		let order = Arc::new(loom::sync::Mutex::new(Vec::<u8>::new()));
+		let reader = {
+			let (db, k1, k2) = (db.clone(), k1.clone(), k2.clone());
+			loom::thread::spawn(move || {
+				let tree = match db.get_tree(0, &k1).unwrap() {
+					Some(t) => t,
+					None => return false, // the pruner was faster: nothing to lock
+				};
+				let g = tree.read();
+				let first = walk(&**g);
+				if first.is_none() {
+					return false
+				}
+				// insert a tree that reuses K1's child while the lock is held
+				let child = g.get_root().unwrap().unwrap().1[0];
+				db.commit_changes(vec![(0u8, Operation::InsertTree(k2.clone(), NewNode { data: val(6, 10), children: vec![NodeRef::Existing(child)] }))]).unwrap();
+				loom::thread::yield_now();
+				let second = walk(&**g);
+				assert_eq!(first, second, "the locked tree changed under its reader");
+				drop(g);
+				true
+			})
+		};
+		let pruner = {
+			let (db, k1, b, order) = (db.clone(), k1.clone(), b.clone(), order.clone());
+			loom::thread::spawn(move || {
+				let mut o = order.lock().unwrap();
+				db.commit_changes(vec![(0u8, Operation::DereferenceTree(k1.clone())), (1u8, Operation::Set(b.clone(), val(20, 1)))]).unwrap();
+				o.push(1);
+			})
+		};
+		let later = {
+			let (db, b, order) = (db.clone(), b.clone(), order.clone());
+			loom::thread::spawn(move || {
+				let mut o = order.lock().unwrap();
+				db.commit_changes(vec![(1u8, Operation::Set(b.clone(), val(21, 2)))]).unwrap();
+				o.push(2);
+			})
+		};
+		let mut pipes = vec![];
+		{
+			let d = db.clone();
+			pipes.push(loom::thread::spawn(move || {
+				for _ in 0..3 {
+					d.process_commits().unwrap();
+				}
+				d.flush_logs().unwrap();
+				if !split_pipeline {
+					d.enact_logs().unwrap();
+				}
+			}));
+		}
+		if split_pipeline {
+			let d = db.clone();
+			pipes.push(loom::thread::spawn(move || {
+				d.enact_logs().unwrap();
+				d.clean_logs().unwrap();
+			}));
+		}
+		let inserted = reader.join().unwrap();
+		pruner.join().unwrap();
+		later.join().unwrap();
+		for p in pipes {
+			p.join().unwrap();
+		}
+		// finish everything single-threaded
+		for _ in 0..8 {
+			db.process_commits().unwrap();
+		}
+		db.flush_logs().unwrap();
+		db.enact_logs().unwrap();
+		db.clean_logs().unwrap();
+		let last = *order.lock().unwrap().last().unwrap();
+		assert_eq!(db.get(1, &b).unwrap(), Some(if last == 1 { val(20, 1) } else { val(21, 2) }), "btree key does not hold the value of the transaction that committed last ({})", last);
+		assert!(db.get_tree(0, &k1).unwrap().is_none(), "K1 still there after its dereference completed");
+		if inserted {
+			let t = db.get_tree(0, &k2).unwrap().expect("K2 missing");
+			let g = t.read();
+			let w = walk(&**g).expect("K2 unreadable: a node it shares with K1 was freed");
+			assert_eq!(w.len(), 3, "K2 must have its root, the shared node and that node's leaf");
+			assert_eq!(w[1].0, val(30, 7), "shared node data changed");
+		}
+		let db = Arc::try_unwrap(db).ok().expect("sole owner");
+		drop(db);
+	}
+}
+
 // ---------------------------------------------------------------------------------------------------
 // driver
 
@@ -408,6 +529,11 @@ fn run_child(prop: &str, tier: &str, idx: usize) -> Outcome {
 		("C15", 7) if !quick => explore("workers/over-queue-limit", 2, wall, c15_scenario(&[100, 8], false)),
 		("C15", 8) if !quick => explore("workers/3-commits-mixed", 2, wall, c15_scenario(&[100, 600, 8], false)),
 		("C15", 9) if !quick => explore("workers/second-client", 2, wall, c15_scenario(&[100], true)),
+		("C11L", 0) => explore("reader+pruner+writer/one-pipeline-thread", 1, wall, c11_scenario(false)),
+		("C11L", 1) => explore("reader+pruner+writer/one-pipeline-thread", 2, wall, c11_scenario(false)),
+		("C11L", 2) => explore("reader+pruner+writer/split-pipeline", 1, wall, c11_scenario(true)),
+		("C11L", 3) if !quick => explore("reader+pruner+writer/split-pipeline", 2, wall, c11_scenario(true)),
+		("C11L", 4) if !quick => explore("reader+pruner+writer/one-pipeline-thread", 3, wall, c11_scenario(false)),
 		("C05", 0) => explore("hash/one-pipeline-thread", 2, wall, c05_scenario(false, false, false)),
 		("C05", 1) => explore("hash/split-pipeline", 1, wall, c05_scenario(false, true, false)),
 		("C05", 2) => explore("btree/one-pipeline-thread", 2, wall, c05_scenario(true, false, false)),
@@ -437,6 +563,10 @@ fn main() {
 	}
 	let t0 = Instant::now();
 	let exe = std::env::current_exe().unwrap();
+	// "C11L" = the threaded part of C11: reported under property C11, evidence in C11-loom.json (the registered
+	// evidence file of C11 is written by the sequential part)
+	let report_prop = if prop == "C11L" { "C11".to_string() } else { prop.clone() };
+	let evidence_name = if prop == "C11L" { "C11-loom".to_string() } else { prop.clone() };
 	// all scenario/bound pairs in parallel, one process each
 	let mut children = vec![];
 	for idx in 0..19 {
@@ -479,12 +609,12 @@ fn main() {
 		if let Some(f) = j["failure"].as_str() {
 			let rendering = format!("scenario {} preemption bound {}: after {} schedules: {}", j["name"].as_str().unwrap(), j["pb"], j["schedules"], f);
 			let k = known.iter().find(|k| {
-				k["property"] == prop.as_str() &&
+				k["property"] == report_prop.as_str() &&
 					k["status"].as_str().map_or(false, |s| s == "open") &&
 					k["signature"].as_array().map_or(false, |a| !a.is_empty() && a.iter().all(|s| rendering.contains(s.as_str().unwrap_or("\u{0}"))))
 			});
 			if let Some(k) = k {
-				let l = format!("KNOWN-FINDING: property={} {} [{}]", prop, k["what"].as_str().unwrap_or(""), k["id"].as_str().unwrap_or(""));
+				let l = format!("KNOWN-FINDING: property={} {} [{}]", report_prop, k["what"].as_str().unwrap_or(""), k["id"].as_str().unwrap_or(""));
 				if !known_lines.contains(&l) {
 					println!("{}", l);
 					known_lines.push(l);
@@ -493,16 +623,16 @@ fn main() {
 				violations += 1;
 				let dir = out_root().join("replays");
 				let _ = std::fs::create_dir_all(&dir);
-				let path = dir.join(format!("{}-loom-{}-pb{}.json", prop, j["name"].as_str().unwrap().replace('/', "_"), j["pb"]));
-				std::fs::write(&path, serde_json::to_string_pretty(&json!({"property": prop, "engine": "loommc", "scenario": j["name"], "preemption_bound": j["pb"], "failed_at_schedule": j["schedules"], "message": f})).unwrap()).unwrap();
-				println!("VIOLATION property={} replay={}", prop, path.display());
+				let path = dir.join(format!("{}-loom-{}-pb{}.json", report_prop, j["name"].as_str().unwrap().replace('/', "_"), j["pb"]));
+				std::fs::write(&path, serde_json::to_string_pretty(&json!({"property": report_prop, "engine": "loommc", "scenario": j["name"], "preemption_bound": j["pb"], "failed_at_schedule": j["schedules"], "message": f})).unwrap()).unwrap();
+				println!("VIOLATION property={} replay={}", report_prop, path.display());
 				println!("  {}", rendering);
 			}
 		}
 		parts.push(j);
 	}
 	let ev = json!({
-		"property_id": prop, "tier": if tier == "thorough" { "thorough" } else { "quick" },
+		"property_id": report_prop, "tier": if tier == "thorough" { "thorough" } else { "quick" },
 		"seed": std::env::var("VERIF_SEED").ok().and_then(|s| s.parse::<i64>().ok()).unwrap_or(0),
 		"level": "model_checking",
 		"coverage": {
@@ -518,7 +648,7 @@ fn main() {
 	});
 	let dir = out_root().join("evidence");
 	let _ = std::fs::create_dir_all(&dir);
-	std::fs::write(dir.join(format!("{}.json", prop)), serde_json::to_string_pretty(&ev).unwrap()).unwrap();
+	std::fs::write(dir.join(format!("{}.json", evidence_name)), serde_json::to_string_pretty(&ev).unwrap()).unwrap();
 	println!("{} {}: {} in {:.1}s ({} schedules)", prop, tier, if violations == 0 { "held on everything explored" } else { "VIOLATED" }, t0.elapsed().as_secs_f64(), total);
 	std::process::exit(if violations == 0 { 0 } else { 1 });
 }
